@@ -154,7 +154,7 @@ class Transformer(NamedTuple):
         for contract in func.contracts:
             if contract.category not in cats:
                 continue
-            yield Remove(contract.line)
+            yield from self._remove_contract(func, contract)
             if contract.category == Category.PURE:
                 yield InsertContract(
                     line=self._get_insert_line(func),
@@ -170,6 +170,19 @@ class Transformer(NamedTuple):
             contract=Category.RAISES,
             args=contract_args,
         )
+
+    @staticmethod
+    def _remove_contract(func: Func, contract) -> Iterator[Mutation]:
+        """Remove every line of the (possibly multiline) contract decorator.
+        """
+        assert isinstance(func.node, astroid.FunctionDef)
+        last_line = contract.line
+        if func.node.decorators is not None:
+            for decorator in func.node.decorators.nodes:
+                if decorator.lineno == contract.line and decorator.end_lineno:
+                    last_line = decorator.end_lineno
+        for line in range(contract.line, last_line + 1):
+            yield Remove(line)
 
     @staticmethod
     def _exc_as_str(exc) -> str:
@@ -218,7 +231,7 @@ class Transformer(NamedTuple):
         for contract in func.contracts:
             if contract.category not in cats:
                 continue
-            yield Remove(contract.line)
+            yield from self._remove_contract(func, contract)
             if contract.category == Category.PURE:
                 yield InsertContract(
                     line=self._get_insert_line(func),
